@@ -17,6 +17,11 @@ def parseOp (j : Json) : Except String Op := do
   | "grp" => pure (.grpNext (← (← arrGet a 1).getNat?))
   | t => throw s!"bad op {t}"
 
+/-- number of source items still unread after each operation -/
+def remaining (f : St → Op → St × Out) : St → List Op → List Nat
+  | _, [] => []
+  | s, op :: ops => (f s op).1.items.length :: remaining f (f s op).1 ops
+
 def run (j : Json) : Except String Json := do
   let items ← (← getArr j "items").toList.mapM fun p => do
     let a ← p.getArr?
@@ -24,7 +29,10 @@ def run (j : Json) : Except String Json := do
   let ops ← (← getArr j "ops").toList.mapM parseOp
   let oi := AsyncVerif.GroupBy.run stepI (init items) ops
   let os := AsyncVerif.GroupBy.run stepS (init items) ops
+  let ri := remaining stepI (init items) ops
+  let rs := remaining stepS (init items) ops
   pure (Json.mkObj [("impl", Json.arr (oi.toArray.map outJson)), ("spec", Json.arr (os.toArray.map outJson)),
+    ("impl_consumed", toJson (ri.map (items.length - ·))), ("spec_consumed", toJson (rs.map (items.length - ·))),
     ("runs", Json.arr ((runs items).toArray.map fun (k, vs) => Json.arr #[toJson k, toJson vs]))])
 
 end Drv.GroupBy
